@@ -26,6 +26,7 @@ import (
 	"sort"
 	"strconv"
 	"strings"
+	"time"
 
 	"github.com/opencontainers/go-digest"
 	ocispec "github.com/opencontainers/image-spec/specs-go/v1"
@@ -968,7 +969,18 @@ func execHistory(id string, c *Case) (nreq int) {
 		g.CurOp = i
 		first := len(g.Log)
 		sentBefore, gotBefore := len(g.SentWarnings), len(gotWarnings)
-		res := doOp(ctx, c, repo, o)
+		// watchdog: an operation that does not return (a page loop that never ends, a wedged
+		// merge of referrers changes) is a failure with a replay, not a hanging check
+		resCh := make(chan opResult, 1)
+		go func() { resCh <- doOp(ctx, c, repo, o) }()
+		var res opResult
+		select {
+		case res = <-resCh:
+		case <-time.After(20 * time.Second):
+			run.OracleFail(id, "hang", fmt.Sprintf("op %d (%s) did not return within 20s (%d requests so far)", i, o.Kind, len(g.Log)-first), replayOf(line))
+			run.Case(id, line, "hang")
+			return g.N
+		}
 		if c.O.Warn {
 			sent, got := g.SentWarnings[sentBefore:], gotWarnings[gotBefore:]
 			if strings.Join(sent, "\x00") != strings.Join(got, "\x00") {
@@ -1033,6 +1045,13 @@ func execHistory(id string, c *Case) (nreq int) {
 			continue
 		}
 		exp := t.expect(c, o)
+		if c.referrersRegime() == "tags" && exp != "" && exp != "?" {
+			if o.Kind == "preds" {
+				run.Count("tagschema:preds-judged")
+			} else if o.CI >= 0 && c.Pool[o.CI].subj != nil && (o.Kind == "push" || o.Kind == "pushref") {
+				run.Count("tagschema:push-with-subject-judged")
+			}
+		}
 		if exp == "?" { // inaccurate descriptor with a state effect the property does not fix
 			judging = false
 			continue
@@ -2302,7 +2321,7 @@ func main() {
 	if run.Replay == "" {
 		floors := map[string]int{"seek:r": 1000, "seek:s": 1000, "seek:position-unchanged": 50, "seek:read-eof-with-data": 50, "seek:reconnect": 200,
 			"seek:corrupt:status": 5, "seek:corrupt:len-inc": 3, "location:url": 200, "grammar:allowed": 200, "grammar:rejected": 200,
-			"opt:limit-near-manifest-size": 50, "reader:opaque": 100, "route:manifests": 100, "route:blobs": 100, "warnings:delivered": 100}
+			"opt:limit-near-manifest-size": 50, "tagschema:preds-judged": 30, "tagschema:push-with-subject-judged": 50, "reader:opaque": 100, "route:manifests": 100, "route:blobs": 100, "warnings:delivered": 100}
 		var low []string
 		for k, v := range floors {
 			if run.Dist[k] < v {
